@@ -32,6 +32,9 @@ KINDS = {
 }
 
 
+SELS = [("ref",), ("ref_mut",), ("owned", "ref"), ("owned", "ref_mut"), ("ref", "ref_mut"), ("owned",)]   # besides none and all three
+
+
 def tup(xs):
     return xs[0] if len(xs) == 1 else "(" + ", ".join(xs) + ")"
 
@@ -41,6 +44,9 @@ def gen_case(cid, kinds, cfg, generic):
     SNAKE = cfg.get("snake", SNAKE_DEFAULT)
     PLAIN = [x[2:] if x.startswith("r#") else x for x in NAMES]
     refs = cfg.get("refs", False)
+    sel = tuple(cfg["sel"]) if "sel" in cfg else (("owned", "ref", "ref_mut") if refs else None)   # enum-level selection
+    sel_ref, sel_mut = bool(sel) and "ref" in sel, bool(sel) and "ref_mut" in sel
+    sel_owned = sel is None or "owned" in sel    # what a TryInto selection without `owned` does for owned is not pinned by the docs
     ign = cfg.get("ignore", set())
     fign = cfg.get("field_ignore", {})
     vrefs = cfg.get("variant_refs", set())
@@ -72,8 +78,10 @@ def gen_case(cid, kinds, cfg, generic):
         body = "" if k == "unit" else (" { " + ", ".join(fs) + " }" if named else "(" + ", ".join(fs) + ")")
         variants.append(" ".join(attrs) + " " + NAMES[vi] + body)
     eattrs = []
-    if refs:
+    if refs and "sel" not in cfg:
         eattrs += (["#[try_into(owned, ref, ref_mut)]"] if do_tryinto else []) + (["#[unwrap(ref, ref_mut)]", "#[try_unwrap(ref, ref_mut)]"] if do_unwrap else [])
+    elif sel:
+        eattrs += (["#[try_into(%s)]" % ", ".join(sel)] if do_tryinto else []) + (["#[unwrap(%s)]" % ", ".join(sel), "#[try_unwrap(%s)]" % ", ".join(sel)] if do_unwrap else [])
     derives = ["IsVariant"] + (["TryInto"] if do_tryinto else []) + (["Unwrap", "TryUnwrap"] if do_unwrap else [])
     gdecl = "<T>" if generic else ""
     EE = "E<Fa>" if generic else "E"
@@ -125,8 +133,8 @@ def gen_case(cid, kinds, cfg, generic):
             L.append('r.eq("is_%s on %s", v%d.is_%s(), %s);' % (sn, NAMES[i], i, sn, same))
             if not do_unwrap:
                 continue
-            want_ref = refs or (j in vrefs)
-            want_mut = refs
+            want_ref = sel_ref or (j in vrefs)
+            want_mut = sel_mut
             if vrefs:
                 # docs only determine `*_ref` of the variant carrying `#[unwrap(ref)]`
                 if j not in vrefs:
@@ -196,20 +204,25 @@ def gen_case(cid, kinds, cfg, generic):
             ok = (i not in ign) and tuple(conv_tys(i)) == t
             if ok:
                 vals = ["%s(%d)" % (cty(tys[fi]), 100 + 10 * i + fi) for fi in kept]
-                L.append('r.eq("TryFrom<E> for %s from %s", <%s as ::core::convert::TryFrom<%s>>::try_from(v%d.clone()).ok(), Some(%s));' % (
-                    tt, NAMES[i], tt, EE, i, tup(vals) if vals else "()"))
-                if refs and kept:
-                    binds = ["p%d" % f for f in range(len(kept))]
+                if sel_owned:
+                    L.append('r.eq("TryFrom<E> for %s from %s", <%s as ::core::convert::TryFrom<%s>>::try_from(v%d.clone()).ok(), Some(%s));' % (
+                        tt, NAMES[i], tt, EE, i, tup(vals) if vals else "()"))
+                binds = ["p%d" % f for f in range(len(kept))]
+                if sel_ref and kept:
                     L.append('{ let %s = <%s as ::core::convert::TryFrom<&%s>>::try_from(&v%d).ok().unwrap(); r.eq("TryFrom<&E> yields the fields themselves", vec![%s], vec![%s]); }' % (
                         tup(binds), rt, EE, i, ", ".join("adr(%s)" % b for b in binds), ", ".join("fa%d[%d]" % (i, fi) for fi in kept)))
+                if sel_mut and kept:
                     L.append('{ let mut w = v%d.clone(); let want: Vec<usize> = match &w { %s => vec![%s], _ => unreachable!() }; let %s = <%s as ::core::convert::TryFrom<&mut %s>>::try_from(&mut w).ok().unwrap(); r.eq("TryFrom<&mut E> yields the fields themselves", vec![%s], want); }' % (
                         i, pat(i, ["b%d" % f for f in range(len(tys))]), ", ".join("adr(b%d)" % fi for fi in kept), tup(binds), mt, EE,
                         ", ".join("adr(&*%s)" % b for b in binds)))
             else:
-                L.append('r.eq("TryFrom<E> for %s from %s returns the original", <%s as ::core::convert::TryFrom<%s>>::try_from(v%d.clone()).err().map(|e| e.input), Some(v%d.clone()));' % (
-                    tt, NAMES[i], tt, EE, i, i))
-                if refs:
+                if sel_owned:
+                    L.append('r.eq("TryFrom<E> for %s from %s returns the original", <%s as ::core::convert::TryFrom<%s>>::try_from(v%d.clone()).err().map(|e| e.input), Some(v%d.clone()));' % (
+                        tt, NAMES[i], tt, EE, i, i))
+                if sel_ref:
                     L.append('r.eq("TryFrom<&E> error carries the very input", <%s as ::core::convert::TryFrom<&%s>>::try_from(&v%d).err().map(|e| adr(e.input)), Some(adr(&v%d)));' % (rt, EE, i, i))
+                if sel_mut:
+                    L.append('{ let mut w = v%d.clone(); let a = adr(&w); r.eq("TryFrom<&mut E> error carries the very input", <%s as ::core::convert::TryFrom<&mut %s>>::try_from(&mut w).err().map(|e| adr(&*e.input)), Some(a)); }' % (i, mt, EE))
     # ignored variants contribute no conversion
     for vi in (ign if do_tryinto else ()):
         t = tuple(conv_tys(vi))
@@ -243,6 +256,9 @@ def run(chk, tier):
             add(kinds, {})
             add(kinds, {"refs": True})
             add(kinds, {"refs": True}, generic=True)
+            if n == 1 or (n == 2 and (thorough or kinds[0] != kinds[1])):
+                for sel in SELS:
+                    add(kinds, {"sel": sel})
             for ig in range(n):
                 if n > 1:
                     add(kinds, {"ignore": {ig}, "refs": True})
@@ -267,7 +283,7 @@ def run(chk, tier):
             add(kinds, {"refs": True})
             add(kinds, {"ignore": {1}, "refs": True})
     chk.part("space", variant_kinds=kinds_alpha, max_variants=maxv, programs=len(cases),
-             configs=["plain", "enum-level owned/ref/ref_mut", "generic <T>", "each variant ignored", "each field ignored (TryInto)", "variant-level ref (Unwrap/TryUnwrap)"],
+             configs=["plain", "enum-level owned/ref/ref_mut", "every other subset of owned/ref/ref_mut at enum level", "generic <T>", "each variant ignored", "each field ignored (TryInto)", "variant-level ref (Unwrap/TryUnwrap)"],
              pairs="every (value, accessor) pair per enum")
     eng = CompileEngine("C11", prelude=PRELUDE, per_bin=max(8, len(cases) // 16 + 1))
     results = eng.run_cases(cases)
